@@ -468,6 +468,10 @@ func (x *c04) r5(outer, w *ssa.Function) {
 			if st.Parent() == w {
 				inWalker++
 			} else if !(st.Parent() == outer && isNilConst(st.Val)) {
+				// `return err` with a named result stores the variable's own value back
+				if cellOfLoadAny(st.Val) == cell {
+					continue
+				}
 				// a store in the outer function: must not lie between walk and return
 				if g.Reach(g.Succ[walks[0]], nil, nil)[g.Idx[st]] {
 					bad = "the error variable is overwritten between the walk and the return"
